@@ -53,7 +53,11 @@ def _setup(n, zero, xlevel, sp, special=None):
                 return ("w", i)
         return None
 
+    nan_sym = w[-1] if special == "nan" and w else None      # in the NaN class the last weight is the NaN: whatever contains it is NaN
+
     def oracle(op, ea, eb):
+        if nan_sym is not None and (nan_sym in sp.sympify(ea).free_symbols or nan_sym in sp.sympify(eb).free_symbols):
+            return op == "NotEq"                         # every ordered comparison with NaN is false
         if special in ("nan",) and (sp.expand(ea) == sp.expand(T) or sp.expand(eb) == sp.expand(T)):
             return op == "NotEq"                         # every ordered comparison with NaN is false
         la, lb = level(ea), level(eb)
@@ -72,6 +76,8 @@ def _setup(n, zero, xlevel, sp, special=None):
         return {"Lt": d < 0, "LtE": d <= 0, "Gt": d > 0, "GtE": d >= 0, "Eq": d == 0, "NotEq": d != 0}[op]
 
     def fact(kind, e):
+        if nan_sym is not None and nan_sym in sp.sympify(e).free_symbols:
+            return {"isfinite": False, "isinf": False, "isnan": True}[kind]
         if sp.expand(e) in (sp.expand(T), X):
             if special == "nan":
                 return {"isfinite": False, "isinf": False, "isnan": True}[kind]
